@@ -74,13 +74,17 @@ let run () = iter_lines (fun line ->
          end
        end
      | _ -> report "BAD" "regex line" line)
-  | 'z', [e; res] ->
+  | 'z', [e; res; as_written] ->
     (* the preparation of a regex expression, character for character (what does not compile afterwards is not observable) *)
     let et = text_of_hex e in
     let m = regex_prepare et in
     bump (if res = "err" then "prepare:does-not-compile" else if m = et then "prepare:unchanged" else "prepare:changed");
     let plain0 = List.for_all (fun c -> let c = int_of_n c in c <> 92 && c <> 123 && c <> 125 && c <> 91 && c <> 93 && c <> 40 && c <> 41 && c <> 42 && c <> 43 && c <> 63 && c <> 124) et in
     if res = "err" && plain0 then report "SPEC:C04" "a regex expression made of literal characters, `.` `^` `-` only is rejected" line;
+    (* a regular expression that the regex crate takes as written, and that the compatibility passes leave as it is, is a regex
+       expectation: it must not be rejected (e.g. \p{L}+, whose braces used to be escaped) *)
+    if res = "err" && as_written = "1" && m = et then
+      report "SPEC:C04" "a well-formed regular expression (accepted by the regex crate as written, left alone by the compatibility passes) is rejected" line;
     if res = "panic" then report "SPEC:C04" "making a regex rule panicked" line
     else if res <> "err" then begin
       let impl = text_of_hex (String.sub res 1 (String.length res - 1)) in
